@@ -351,9 +351,11 @@ def _beam_cases(tn, rng, thorough):
             ks = sorted(set([1, 2, 3, N - 1, N, N + 1] + rng.sample(ks, 8)))
         for l2r in (True, False):
             for k in ks:
+                Yobj = copy_tt(Y)       # ONE object for both calls (history); it must come back unchanged
                 with Rec(tn) as rec:
-                    Ix = tn.optima_tt_beam(copy_tt(Y), k, l2r=l2r, ret_all=True)
-                    i0 = tn.optima_tt_beam(copy_tt(Y), k, l2r=l2r)
+                    Ix = tn.optima_tt_beam(Yobj, k, l2r=l2r, ret_all=True)
+                    i0 = tn.optima_tt_beam(Yobj, k, l2r=l2r)
+                touched = not _same_arg(Yobj, Y, None)
                 o = rec.orth[0]
                 d = len(Y)
                 s = 2 ** (o['p'] / d)
@@ -364,7 +366,7 @@ def _beam_cases(tn, rng, thorough):
                          f'showF (beam_all OF asr ort p2 0 0 Y {k} {bl(l2r)} true None) '
                          f'(beam_norm_trace OF asr ort p2 0 0 Y {k} {bl(l2r)} true None))'),
                     table=np.asarray(Ix).tolist(), first=np.asarray(i0).tolist(), sort=rec.sort[:nsort],
-                    orth_bad=orth_contract(tn, o), Y=Y,
+                    orth_bad=('argument modified' if touched else orth_contract(tn, o)), Y=Y,
                     input=dict(stream='A', ns=ns, rs=rs, kind=kind, k=k, l2r=l2r, Y=[G.tolist() for G in Y])))
                 if kind in ('int', 'int2', 'pos', 'zero'):
                     with Rec(tn) as rec:
@@ -539,8 +541,14 @@ def _pipeline_cases(tn, rng, thorough):
         for lv in (MISLEADING_LEVELS if thorough else MISLEADING_LEVELS[:2]):
             Y = misleading_tt(rng, ns, bs, *lv)
             add(ns, [1] + [3] * (len(ns) - 1) + [1], Y, list(range(1, max(2, nelem(Y) // 4) + 1)))
+    # scale family (exact powers of two): a maximum modulus below the 1e-16 threshold of teneva.const, and large scales
+    for pw in ((-63, -100, -498, 63, 332) if thorough else (-63, -100, 100)):
+        ns, rs = rand_shape(rng, dmax=3, nmax=3, rmax=2, nelem=18)
+        Y = rand_tt(rng, ns, rs, 'float')
+        Y[0] = Y[0] * 2.0 ** pw
+        add(ns, rs, Y, [nelem(Y), nelem(Y) + 1, 2])
     n_t = 60 if thorough else 14
-    while len(items) < (400 if thorough else 110) and n_t > 0:
+    while len(items) < (400 if thorough else 120) and n_t > 0:
         n_t -= 1
         ns, rs = rand_shape(rng, dmax=4, nmax=3, rmax=2, nelem=24)
         Y = rand_tt(rng, ns, rs, 'float')
@@ -725,9 +733,12 @@ def _func_cases(tn, rng, thorough):
             d = len(ns)
             inp = dict(stream='F', ns=ns, rs=rs, k=k, k_loc=k_loc, A=[G.tolist() for G in A], func=True)
             try:
+                Aobj = copy_tt(A)       # ONE object for both calls (history); it must come back unchanged
                 with RecFunc(tn) as rec:
-                    X = np.asarray(tn.optima_func_tt_beam(copy_tt(A), k, k_loc, ret_all=True), dtype=float)
-                    x0 = np.asarray(tn.optima_func_tt_beam(copy_tt(A), k, k_loc), dtype=float)
+                    X = np.asarray(tn.optima_func_tt_beam(Aobj, k, k_loc, ret_all=True), dtype=float)
+                    x0 = np.asarray(tn.optima_func_tt_beam(Aobj, k, k_loc), dtype=float)
+                if not _same_arg(Aobj, A, None):
+                    raise RuntimeError('optima_func_tt_beam modified its argument')
             except Exception as e:  # noqa
                 items.append(dict(coq='(([] : list (list nat)), ([] : list (list (Z * Z))))', broken='implementation raised ' + repr(e)[:200], input=inp))
                 continue
@@ -796,8 +807,12 @@ def _func_r1_cases(tn, rng, thorough):
         for k, k_loc in [(1, None), (2, 1), (3, None), (5, 2)]:
             inp = dict(stream='R1', ns=ns, k=k, k_loc=k_loc, A=[G.tolist() for G in A], func=True)
             try:
+                Aobj = copy_tt(A)       # the same object is used a second time below
                 with RecFunc(tn) as rec:
-                    X = np.asarray(tn.optima_func_tt_beam(copy_tt(A), k, k_loc, ret_all=True), dtype=float)
+                    X = np.asarray(tn.optima_func_tt_beam(Aobj, k, k_loc, ret_all=True), dtype=float)
+                    X2 = np.asarray(tn.optima_func_tt_beam(Aobj, k, k_loc, ret_all=True), dtype=float)
+                if X2.tolist() != X.tolist() or not _same_arg(Aobj, A, None):
+                    raise RuntimeError('optima_func_tt_beam: second call on the same object differs / argument modified')
             except Exception as e:  # noqa
                 items.append(dict(coq='(([] : list (list nat)), ([] : list (list (Z * Z))))', broken='implementation raised ' + repr(e)[:200], input=inp))
                 continue
@@ -860,6 +875,52 @@ def _check_func_r1(R, name, items, distribution):
 # property-level oracle on the implementation (independent of the model): brute force on the dense tensor
 # ----------------------------------------------------------------------------------------------
 
+# argument forms (the property quantifies over inputs, not over their representation)
+def form_tuple(T):
+    return tuple(np.array(G, dtype=float) for G in T)
+
+
+def form_int(T):
+    return [np.array(G).astype(int) for G in T]
+
+
+def form_fortran(T):
+    return [np.asfortranarray(np.array(G, dtype=float)) for G in T]
+
+
+def form_float32(T):
+    return [np.array(G, dtype=np.float32) for G in T]
+
+
+def kform_int64(k):
+    return np.int64(k)
+
+
+def kform_int32(k):
+    return np.int32(k)
+
+
+FORMS = dict(form_tuple=form_tuple, form_int=form_int, form_fortran=form_fortran, form_float32=form_float32)
+KFORMS = dict(kform_int64=kform_int64, kform_int32=kform_int32)
+
+
+def _argmaker(Y, k, form, kform, shared):
+    """-> (mk, kk, obj): mk() yields the tensor argument of the next call (a fresh one, or always the same object when
+    shared), kk the candidate count in the requested integer type, obj the shared object (None when not shared)"""
+    build = (lambda: form(Y)) if form else (lambda: copy_tt(Y))
+    kk = kform(k) if kform else k
+    if shared:
+        obj = build()
+        return (lambda: obj), kk, obj
+    return build, kk, None
+
+
+def _same_arg(obj, Y, form):
+    ref = form(Y) if form else copy_tt(Y)
+    return len(obj) == len(ref) and all(np.asarray(a).dtype == np.asarray(b).dtype and np.array_equal(np.asarray(a), np.asarray(b))
+                                        for a, b in zip(obj, ref))
+
+
 def _quiet(f, *a, **k):
     with warnings.catch_warnings():
         warnings.simplefilter('ignore')
@@ -875,7 +936,7 @@ def _inb(i, ns):
     return i.ndim == 1 and len(i) == len(ns) and all(int(a) == a and 0 <= int(a) < n for a, n in zip(i, ns))
 
 
-def _oracle_tt(tn, Y, k, rank1=None):
+def _oracle_tt(tn, Y, k, rank1=None, form=None, kform=None, shared=False):
     """all clauses of C15 that concern optima_tt_beam / optima_tt_max / optima_tt on one (Y, k);
     returns a failure dict or None"""
     ns = [G.shape[1] for G in Y]
@@ -884,17 +945,19 @@ def _oracle_tt(tn, Y, k, rank1=None):
     sc = max(float(np.max(np.abs(Fd))), 1e-300)
     tol = 1e-9 * sc
     exact = (k >= N) or (rank1 if rank1 is not None else all(G.shape[0] == 1 and G.shape[2] == 1 for G in Y))
-    inp = dict(Y=[G.tolist() for G in Y], k=k)
+    inp = dict(Y=[np.asarray(G, dtype=float).tolist() for G in Y], k=k, form=getattr(form, '__name__', None),
+               kform=getattr(kform, '__name__', None), shared=shared)
+    mk, kk, obj = _argmaker(Y, k, form, kform, shared)
 
     def fail(what, got=None, expected=None):
         return dict(what=what, input=inp, got=got, expected=expected)
     try:
         # beam, both directions, single result and whole table
         for l2r in (True, False):
-            i = _quiet(tn.optima_tt_beam, copy_tt(Y), k, l2r=l2r)
+            i = _quiet(tn.optima_tt_beam, mk(), kk, l2r=l2r)
             if not _inb(i, ns):
                 return fail('optima_tt_beam returns a multi-index outside the tensor bounds (l2r=%s)' % l2r, np.asarray(i).tolist(), ns)
-            Ia = np.asarray(_quiet(tn.optima_tt_beam, copy_tt(Y), k, l2r=l2r, ret_all=True))
+            Ia = np.asarray(_quiet(tn.optima_tt_beam, mk(), kk, l2r=l2r, ret_all=True))
             if Ia.ndim != 2 or not all(_inb(r, ns) for r in Ia):
                 return fail('optima_tt_beam(ret_all) returns rows outside the tensor bounds (l2r=%s)' % l2r, Ia.tolist(), ns)
             if len(Ia) > k or len({tuple(r) for r in Ia.tolist()}) != len(Ia):
@@ -905,7 +968,7 @@ def _oracle_tt(tn, Y, k, rank1=None):
                 return fail('optima_tt_beam misses the maximum modulus although %s (l2r=%s)'
                             % ('k >= number of elements' if k >= N else 'the tensor has rank 1', l2r),
                             float(Fd[tuple(int(a) for a in i)]), sc)
-        i, y = _quiet(tn.optima_tt_max, copy_tt(Y), k)
+        i, y = _quiet(tn.optima_tt_max, mk(), kk)
         if not _inb(i, ns):
             return fail('optima_tt_max returns a multi-index outside the tensor bounds', np.asarray(i).tolist(), ns)
         if abs(float(y) - Fd[tuple(int(a) for a in i)]) > tol:
@@ -913,11 +976,11 @@ def _oracle_tt(tn, Y, k, rank1=None):
         if exact and abs(abs(float(y)) - float(np.max(np.abs(Fd)))) > tol:
             return fail('optima_tt_max misses the maximum modulus', float(y), float(np.max(np.abs(Fd))))
         for l2r in (True, False):       # best of both sweep directions
-            ib = _quiet(tn.optima_tt_beam, copy_tt(Y), k, l2r=l2r)
+            ib = _quiet(tn.optima_tt_beam, mk(), kk, l2r=l2r)
             if abs(float(y)) < abs(float(Fd[tuple(int(a) for a in ib)])) - tol:
                 return fail('optima_tt_max returns a smaller modulus than the beam of one sweep direction (l2r=%s)' % l2r,
                             float(y), float(Fd[tuple(int(a) for a in ib)]))
-        i_min, y_min, i_max, y_max = _quiet(tn.optima_tt, copy_tt(Y), k)
+        i_min, y_min, i_max, y_max = _quiet(tn.optima_tt, mk(), kk)
         if not (_inb(i_min, ns) and _inb(i_max, ns)):
             return fail('optima_tt returns a multi-index outside the tensor bounds', [np.asarray(i_min).tolist(), np.asarray(i_max).tolist()], ns)
         if abs(float(y_min) - Fd[tuple(int(a) for a in i_min)]) > tol or abs(float(y_max) - Fd[tuple(int(a) for a in i_max)]) > tol:
@@ -940,10 +1003,12 @@ def _oracle_tt(tn, Y, k, rank1=None):
             return f
     except Exception as e:  # noqa
         return fail('optimum search raised on a valid tensor: ' + repr(e)[:200])
+    if obj is not None and not _same_arg(obj, Y, form):
+        return fail('the optimum search modified its argument (repeated calls on the same tensor object)')
     return None
 
 
-def _oracle_qtt(tn, Y, k):
+def _oracle_qtt(tn, Y, k, form=None, kform=None, shared=False):
     ns = [G.shape[1] for G in Y]
     n = ns[0]
     q = n.bit_length() - 1
@@ -951,12 +1016,14 @@ def _oracle_qtt(tn, Y, k):
     Fd = _quiet(tn.full, Y)
     sc = max(float(np.max(np.abs(Fd))), 1e-300)
     tol = 1e-9 * sc
-    inp = dict(Y=[G.tolist() for G in Y], k=k, qtt=True)
+    inp = dict(Y=[np.asarray(G, dtype=float).tolist() for G in Y], k=k, qtt=True, form=getattr(form, '__name__', None),
+               kform=getattr(kform, '__name__', None), shared=shared)
+    mk, kk, obj = _argmaker(Y, k, form, kform, shared)
 
     def fail(what, got=None, expected=None):
         return dict(what=what, input=inp, got=got, expected=expected)
     try:
-        i_min, y_min, i_max, y_max = _quiet(tn.optima_qtt, copy_tt(Y), k)
+        i_min, y_min, i_max, y_max = _quiet(tn.optima_qtt, mk(), kk)
         if not (_inb(i_min, ns) and _inb(i_max, ns)):
             return fail('optima_qtt returns a multi-index outside the tensor bounds', [np.asarray(i_min).tolist(), np.asarray(i_max).tolist()], ns)
         if abs(float(y_min) - Fd[tuple(int(a) for a in i_min)]) > tol or abs(float(y_max) - Fd[tuple(int(a) for a in i_max)]) > tol:
@@ -973,8 +1040,15 @@ def _oracle_qtt(tn, Y, k):
         if k >= N and (abs(float(y_min) - float(Fd.min())) > tol or abs(float(y_max) - float(Fd.max())) > tol):
             return fail('optima_qtt misses the true minimum / maximum although k >= number of elements',
                         [float(y_min), float(y_max)], [float(Fd.min()), float(Fd.max())])
+        if shared:      # history: a second call on the same object must give the same answer
+            j_min, z_min, j_max, z_max = _quiet(tn.optima_qtt, mk(), kk)
+            if np.asarray(j_min).tolist() != np.asarray(i_min).tolist() or np.asarray(j_max).tolist() != np.asarray(i_max).tolist():
+                return fail('optima_qtt: a second call on the same tensor object gives a different result',
+                            [np.asarray(j_min).tolist(), np.asarray(j_max).tolist()], [np.asarray(i_min).tolist(), np.asarray(i_max).tolist()])
     except Exception as e:  # noqa
         return fail('optima_qtt raised on a valid power-of-two tensor: ' + repr(e)[:200])
+    if obj is not None and not _same_arg(obj, Y, form):
+        return fail('optima_qtt modified its argument (repeated calls on the same tensor object)')
     return None
 
 
@@ -984,22 +1058,58 @@ def _cheb_dense(A, m=401):
     return g, [np.polynomial.chebyshev.chebval(g, G[0, :, 0]) for G in A]
 
 
-def _oracle_func(tn, A, k, k_loc=None):
-    """functional variant on a rank-1 coefficient tensor: point in the cube, maximum modulus vs a fine grid"""
-    inp = dict(A=[G.tolist() for G in A], k=k, k_loc=k_loc, func=True)
+def _oracle_func(tn, A, k, k_loc=None, form=None, kform=None, shared=False, reps=1):
+    """functional variant on a rank-1 coefficient tensor: point in the cube, maximum modulus vs a fine grid; with shared=True
+    the same tensor object is handed to `reps` consecutive calls and every call is judged against the saved copy"""
+    inp = dict(A=[np.asarray(G, dtype=float).tolist() for G in A], k=k, k_loc=k_loc, func=True, form=getattr(form, '__name__', None),
+               kform=getattr(kform, '__name__', None), shared=shared, reps=reps)
     d = len(A)
+    mk, kk, obj = _argmaker(A, k, form, kform, shared)
+    Af = [np.asarray(G, dtype=float) for G in A]
+    g, Pg = _cheb_dense(Af)
+    best = float(np.prod([np.max(np.abs(p)) for p in Pg]))
+    for rep in range(reps):
+        try:
+            x = np.asarray(_quiet(tn.optima_func_tt_beam, mk(), kk, k_loc), dtype=float)
+        except Exception as e:  # noqa
+            return dict(what='optima_func_tt_beam raises on a rank-1 coefficient tensor' + (' (call %d on the same object)' % (rep + 1) if rep else ''),
+                        input=inp, got=repr(e)[:200])
+        if x.shape != (d,) or not np.all(np.isfinite(x)) or np.any(x < -1) or np.any(x > 1):
+            return dict(what='optima_func_tt_beam returns a point outside the cube [-1, 1]^d', input=inp, got=x.tolist())
+        val = float(np.prod([np.polynomial.chebyshev.chebval(xx, G[0, :, 0]) for xx, G in zip(x, Af)]))
+        if abs(val) < best * (1 - 1e-6) - 1e-300:
+            return dict(what='optima_func_tt_beam: the interpolant does not attain its maximum modulus at the returned point'
+                             + (' (call %d on the same tensor object)' % (rep + 1) if rep else ''),
+                        input=inp, got=[x.tolist(), abs(val)], expected=best)
+    if obj is not None and not _same_arg(obj, A, form):
+        return dict(what='optima_func_tt_beam modified its argument', input=inp)
+    return None
+
+
+
+# scale findings on the UNCHANGED tree, reported to the lead (key, power of two applied to the tensor 'q', routine)
+SCALE_FINDINGS = [('C15/qtt-absolute-eps-small-scale', -63, 'qtt'), ('C15/optima_tt-squared-shift-underflow', -996, 'tt')]
+
+
+def _oracle_cross(tn, A, k):
+    """one tensor object used by the functional variant, then by optima_tt, then by the functional variant again"""
+    inp = dict(A=[G.tolist() for G in A], k=k, func=True, cross=True)
+    obj = copy_tt(A)
     try:
-        x = np.asarray(_quiet(tn.optima_func_tt_beam, copy_tt(A), k, k_loc), dtype=float)
+        x1 = np.asarray(_quiet(tn.optima_func_tt_beam, obj, k), dtype=float)
+        r = _quiet(tn.optima_tt, obj, k)
+        x2 = np.asarray(_quiet(tn.optima_func_tt_beam, obj, k), dtype=float)
+        ref = _quiet(tn.optima_tt, copy_tt(A), k)
     except Exception as e:  # noqa
-        return dict(what='optima_func_tt_beam raises on a rank-1 coefficient tensor', input=inp, got=repr(e)[:200])
-    if x.shape != (d,) or not np.all(np.isfinite(x)) or np.any(x < -1) or np.any(x > 1):
-        return dict(what='optima_func_tt_beam returns a point outside the cube [-1, 1]^d', input=inp, got=x.tolist())
-    g, P = _cheb_dense(A)
-    best = float(np.prod([np.max(np.abs(p)) for p in P]))
-    val = float(np.prod([np.polynomial.chebyshev.chebval(xx, G[0, :, 0]) for xx, G in zip(x, A)]))
-    if abs(val) < best * (1 - 1e-6) - 1e-300:
-        return dict(what='optima_func_tt_beam: the interpolant does not attain its maximum modulus at the returned point',
-                    input=inp, got=[x.tolist(), abs(val)], expected=best)
+        return dict(what='optimum search raised on a valid tensor (functional variant and optima_tt on one object): ' + repr(e)[:160], input=inp)
+    if x1.tolist() != x2.tolist():
+        return dict(what='optima_func_tt_beam gives a different point when called again on the same tensor object', input=inp,
+                    got=x2.tolist(), expected=x1.tolist())
+    if np.asarray(r[0]).tolist() != np.asarray(ref[0]).tolist() or np.asarray(r[2]).tolist() != np.asarray(ref[2]).tolist():
+        return dict(what='optima_tt gives a different result on a tensor object that optima_func_tt_beam used before', input=inp,
+                    got=[np.asarray(r[0]).tolist(), np.asarray(r[2]).tolist()], expected=[np.asarray(ref[0]).tolist(), np.asarray(ref[2]).tolist()])
+    if not _same_arg(obj, A, None):
+        return dict(what='the optimum search modified its argument', input=inp)
     return None
 
 
@@ -1114,6 +1224,78 @@ def search(R, ctx, deep, hints):
                 push(_oracle_order(tn, Y, k))
             n_eval += 1
             push(_oracle_tt(tn, Y, N))
+    one = lambda v: np.array(v, dtype=float).reshape(1, -1, 1)
+    base = [('r1', [one([1, -2, 1.5]), one([-3, 1]), one([2, -3, -2.5])]), ('r2', rand_tt(rng, [3, 2, 3], [1, 2, 2, 1], 'int2')),
+            ('r2f', rand_tt(rng, [2, 3, 2], [1, 2, 2, 1], 'float')), ('q', rand_tt(rng, [4, 4], [1, 2, 1], 'int2')),
+            ('q3', rand_tt(rng, [2, 2, 2], [1, 2, 2, 1], 'float'))]
+    isq = lambda Y: len({G.shape[1] for G in Y}) == 1 and Y[0].shape[1] in (2, 4)
+    # (a) HISTORY: every routine is called repeatedly on ONE tensor object (beam l2r/r2l, ret_all, optima_tt_max, optima_tt in a
+    # row; optima_qtt twice; the functional variant three times; the functional variant again after optima_tt used the object);
+    # every call is judged against the dense reference of a saved copy and the argument must be unchanged afterwards
+    for name, Y in base:
+        N = nelem(Y)
+        for k in (1, 2, N):
+            n_eval += 1
+            fam['history'] = fam.get('history', 0) + 1
+            push(_oracle_tt(tn, Y, k, shared=True))
+        if isq(Y):
+            n_eval += 1
+            push(_oracle_qtt(tn, Y, N + 1, shared=True))
+    hist_func = [[one([0.3, -1.2, 0.7]), one([0.5, 0.25, -1.0])], [one([1.0, 0.5]), one([-0.4, 0.9, 0.3]), one([0.2, -0.7])],
+                 [np.array([rng.uniform(-1, 1) for _ in range(n)]).reshape(1, n, 1) for n in (4, 3)]]
+    for A in hist_func:
+        for k in (1, 3):
+            n_eval += 1
+            fam['history'] = fam.get('history', 0) + 1
+            push(_oracle_func(tn, A, k, None, shared=True, reps=3))
+            push(_oracle_cross(tn, A, k))
+    # (b) SCALE: exact powers of two (the dense reference scales exactly); rank 1 with any k for the maximum modulus, k >= N for
+    # everything.  Ranges: optima_tt squares the shifted entries, so 2^-498 .. 2^498 (1e-150 .. 1e150); optima_qtt calls
+    # tt_to_qtt(Y, e=1e-12) whose accuracy is ABSOLUTE, so only scales >= 1.  Outside these ranges see SCALE_FINDINGS below.
+    for pw in (-63, -100, -498, 63, 100, 332, 498):
+        for name, Y in base:
+            Ys = copy_tt(Y)
+            Ys[0] = Ys[0] * 2.0 ** pw
+            N = nelem(Ys)
+            for k in ([1, 2, N, N + 1] if name == 'r1' else [N, N + 1]):
+                n_eval += 1
+                fam['scale'] = fam.get('scale', 0) + 1
+                push(_oracle_tt(tn, Ys, k))
+            if isq(Ys) and pw > 0:
+                n_eval += 1
+                fam['scale'] = fam.get('scale', 0) + 1
+                push(_oracle_qtt(tn, Ys, N + 1))
+    # regression inputs of scale findings reported to the lead; each becomes active once its key is listed in known_findings.json
+    reg = {kf.get('key') for kf in C.known_findings('C15')}
+    for key, pw, which in SCALE_FINDINGS:
+        if key in reg:
+            Ys = copy_tt(base[3][1])
+            Ys[0] = Ys[0] * 2.0 ** pw
+            f = (_oracle_qtt if which == 'qtt' else _oracle_tt)(tn, Ys, nelem(Ys) + 1)
+            n_eval += 1
+            if f:
+                f['finding_key'] = key
+                push(f)
+    # (c) ARGUMENT FORMS: tuple instead of list, integer dtype cores, Fortran-ordered cores, numpy integer k
+    for name, Y in base[:2] + base[3:4]:
+        N = nelem(Y)
+        for fname, form in (('form_tuple', form_tuple), ('form_int', form_int), ('form_fortran', form_fortran)):
+            if fname == 'form_int' and not all(np.all(G == np.round(G)) for G in Y):
+                continue
+            for kname, kform in ((None, None), ('kform_int64', kform_int64), ('kform_int32', kform_int32)):
+                for k in (2, N + 1):
+                    n_eval += 1
+                    fam['forms'] = fam.get('forms', 0) + 1
+                    push(_oracle_tt(tn, Y, k, form=form, kform=kform))
+                if isq(Y):
+                    n_eval += 1
+                    push(_oracle_qtt(tn, Y, N + 1, form=form, kform=kform))
+    for A in hist_func[:2]:
+        for form in (form_tuple, form_fortran):
+            for kform in (None, kform_int64):
+                n_eval += 1
+                fam['forms'] = fam.get('forms', 0) + 1
+                push(_oracle_func(tn, A, 3, None, form=form, kform=kform))
     # quantised variant on power-of-two shapes
     for _ in range(24 if deep else 6):
         d, q = rng.choice([(2, 1), (2, 2), (3, 1), (3, 2), (2, 3), (4, 1)])
@@ -1161,14 +1343,17 @@ def replay(data):
     inp = p.get('input', {})
     print(data['what'])
     f = None
-    if 'A' in inp:
-        f = _oracle_func(tn, [np.array(G, dtype=float) for G in inp['A']], inp['k'], inp.get('k_loc'))
+    fk = dict(form=FORMS.get(inp.get('form')), kform=KFORMS.get(inp.get('kform')), shared=bool(inp.get('shared')))
+    if 'A' in inp and inp.get('cross'):
+        f = _oracle_cross(tn, [np.array(G, dtype=float) for G in inp['A']], inp['k'])
+    elif 'A' in inp:
+        f = _oracle_func(tn, [np.array(G, dtype=float) for G in inp['A']], inp['k'], inp.get('k_loc'), reps=inp.get('reps', 1), **fk)
     elif 'Y' in inp and inp.get('qtt'):
-        f = _oracle_qtt(tn, [np.array(G, dtype=float) for G in inp['Y']], inp['k'])
+        f = _oracle_qtt(tn, [np.array(G, dtype=float) for G in inp['Y']], inp['k'], **fk)
     elif 'Y' in inp and inp.get('order_only'):
         f = _oracle_order(tn, [np.array(G, dtype=float) for G in inp['Y']], inp['k'])
     elif 'Y' in inp:
-        f = _oracle_tt(tn, [np.array(G, dtype=float) for G in inp['Y']], inp['k'])
+        f = _oracle_tt(tn, [np.array(G, dtype=float) for G in inp['Y']], inp['k'], **fk)
     else:
         print('no failing input recorded (broken proof / correspondence):', p.get('broken'))
         return 1
